@@ -46,6 +46,8 @@ TOPOS = {
     'P2': (['A', 'B'], [('A', 'B')]),
     'P3': (['A', 'B', 'C'], [('A', 'B'), ('B', 'C')]),
     'TRI': (['A', 'B', 'C'], [('A', 'B'), ('B', 'C'), ('A', 'C')]),
+    # A<->B in both directions, B->C and C->A in one direction only: two OMS have no opposite direction
+    'RING1W': (['A', 'B', 'C'], [('A', 'B'), ('B', 'C', 'oneway'), ('C', 'A', 'oneway')]),
 }
 
 
@@ -53,7 +55,11 @@ def build(case):
     sites, links = TOPOS[case['topo']]
     ls = []
     k = 0
-    for a, b in links:
+    for a, b, *one in links:
+        if one:
+            ls.append((a, b, chain(case['profiles'][k], 60 + 5 * k), None))
+            k += 1
+            continue
         ls.append((a, b, chain(case['profiles'][k], 60 + 5 * k), chain(case['profiles'][k + 1], 60 + 5 * k)))
         k += 2
     cband = [{'f_min': 191.3e12, 'f_max': 195.1e12, 'spacing': 50e9}]
@@ -154,10 +160,12 @@ def check_network(case):
         if k != 1:
             v('element-not-in-exactly-one-oms', f'{uid} belongs to {k} OMS')
     # pairing
+    tags_pair = {}
     for o in oms_list:
         r = o.reversed_oms
         opp = [x for x in oms_list if x.el_id_list[0] == o.el_id_list[-1] and x.el_id_list[-1] == o.el_id_list[0]]
         if r is None:
+            tags_pair['unpaired-oms'] = 1
             if opp:
                 v('reverse-missing', f'OMS {o.oms_id} has no reversed_oms although OMS {opp[0].oms_id} is opposite')
         else:
@@ -199,7 +207,7 @@ def check_network(case):
             unus += (val == 'UNUSABLE')
     return {'violations': viol, 'transitions': transitions + len(oms_list), 'traces': 0 if viol else 1,
             'nontrivial': len({tuple(expected_common(o.el_list, equipment)) for o in oms_list}) > 1,
-            'tags': {'built': 1, 'maps-with-unusable': int(unus > 0), 'maps-judged': judged_maps},
+            'tags': {**tags_pair, 'built': 1, 'maps-with-unusable': int(unus > 0), 'maps-judged': judged_maps},
             'outcomes': [str(sorted({tuple(expected_common(o.el_list, equipment)) for o in oms_list}))],
             'sample': {'topo': case['topo'], 'profiles': case['profiles'], 'oms': len(oms_list)}}
 
@@ -300,7 +308,7 @@ def main(rep, tier, seed):
         plan.append(('P3', [tuple(x[f'o{i}'] for i in range(4)) for x in sp.enumerate(3)]))
         sp6 = engine.Space({f'o{i}': ['C'] + [p for p in profs if p != 'C'] for i in range(6)})
         plan.append(('TRI', [tuple(x[f'o{i}'] for i in range(6)) for x in sp6.enumerate(2)]))
-        bound = 'P2: all 9^2 profile pairs; P3: <=3 deviations from a uniform base; triangle: <=2 deviations'
+        bound = 'P2: all 9^2 profile pairs; P3 and one-way ring (4 OMS, 2 unpaired): <=3 deviations from a uniform base; triangle: <=2 deviations'
     else:
         profs = PROFILES
         plan.append(('P2', list(itertools.product(profs, repeat=2))))
@@ -308,10 +316,12 @@ def main(rep, tier, seed):
         sp6 = engine.Space({f'o{i}': ['C'] + [p for p in profs if p != 'C'] for i in range(6)},
                            bases=[{}, {f'o{i}': 'CL' for i in range(6)}])
         plan.append(('TRI', [tuple(x[f'o{i}'] for i in range(6)) for x in sp6.enumerate(3)]))
-        bound = 'P2: all 9^2; P3: all 9^4; triangle: <=3 deviations from all-C and all-CL'
+        bound = 'P2: all 9^2; P3 and one-way ring (4 OMS, 2 unpaired): all 9^4; triangle: <=3 deviations from all-C and all-CL'
     for t, lst in plan:
         for p in lst:
             cases.append({'kind': 'net', 'topo': t, 'profiles': list(p)})
+            if t == 'P3':
+                cases.append({'kind': 'net', 'topo': 'RING1W', 'profiles': list(p)})
     n_net = len(cases)
     # (b) alignment
     exts = EXTENTS if tier == 'thorough' else EXTENTS[:5] + [EXTENTS[5 + seed % 2]]
@@ -335,6 +345,7 @@ def main(rep, tier, seed):
         'maps differ in extent.')
     rep.assumptions += ['band edges on the 6.25 GHz grid are judged exactly; off-grid edges are skipped (none in this library)',
                         'amplifier bands are read from the built elements (params.f_min/f_max)']
+    rep.require(rep.tags.get('unpaired-oms', 0) >= 10, 'no network with an OMS without opposite direction')
     rep.require(rep.tags.get('built', 0) + rep.tags.get('build-raised', 0) >= 20, 'fewer than 20 networks reached build_oms_list')
     rep.require(rep.tags.get('maps-with-unusable', 0) >= 1 or rep.tags.get('build-raised', 0) >= 1,
                 'no network with UNUSABLE slots was built')
